@@ -1402,6 +1402,17 @@ def call_builtin(it, f, args, kwargs, node):
         l.obj.source = args[0]
         if isinstance(args[0], VList):
             l.obj.elem = args[0].obj.elem
+            for a_ in ("comp_iter", "comp_node", "filtered_by_key"):
+                if hasattr(args[0].obj, a_):
+                    setattr(l.obj, a_, getattr(args[0].obj, a_))
+        from .values import VRange as _VRange
+        if isinstance(args[0], _VRange):
+            # list(range(n)) with n not known: [i for i in range(n)]
+            from .interp import _count_term
+
+            l.obj.elem = it.loop_elem(args[0], False, node)
+            l.obj.comp_node = node
+            l.obj.comp_iter = _count_term(args[0])
         return l
     if f == "tuple":
         if not args:
@@ -1436,6 +1447,7 @@ def call_builtin(it, f, args, kwargs, node):
         d = it.new_dict({})
         d.obj.extra_unknown = True
         d.obj.elem = val
+        d.obj.elem_shared = isinstance(val, (VList, VDict))  # dict.fromkeys(keys, []) : ONE list, the value of every key
         return d
     if f in ("set", "frozenset"):
         u = VUnknown(f, "set")
@@ -1860,6 +1872,15 @@ def dict_method(it, dv, name, args, kwargs, node):
                 if k not in d.items:
                     d.items[k] = args[1] if len(args) > 1 else VConst(None)
                 return d.items[k]
+            if d.items is not None and not d.items and len(args) > 1 and isinstance(args[1], (VList, VDict)):
+                # buckets: d.setdefault(key, []) with keys that are not known - every key gets a container of its own (the
+                # default is evaluated anew on every call); one generic container stands for "the container of this key"
+                if getattr(d, "elem", None) is None:
+                    d.elem = args[1]
+                    d.extra_unknown = True
+                    d.elem_per_key = True
+                    args[1].obj.per_key_of = d
+                return d.elem
             return VUnknown("setdefault", "unknown")
         return VConst(None)
     raise Unsupported("dict method %s" % name, node, it.site(node))
